@@ -4,7 +4,7 @@ package main
 
 func init() {
 	props["C01"] = &propSpec{
-		Rules:      []string{"C01-a", "C01-b"},
+		Rules:      []string{"C01-a", "C01-b", "C01-e", "C01-f"},
 		Decides:    "structural necessary conditions of 'no row is dropped, truncated or altered': no storage/sorter/ingest error is dropped (C01-a); 16-bit lengths/offsets in the row codec are bounded before narrowing (C01-b); worker-shared accumulation of blocks and row count is synchronised (C16-a).",
 		NotDecided: "equality of the stored row set with the input row set, key order, de-duplication correctness, export fidelity (value-dependent).",
 	}
@@ -14,7 +14,7 @@ func init() {
 		NotDecided: "decode(encode(x)) = x for all x; the packfile varint header arithmetic.",
 	}
 	props["C07"] = &propSpec{
-		Rules:      []string{"C07-a", "C07-b", "C07-c", "C07-d", "C06-a"},
+		Rules:      []string{"C07-a", "C07-b", "C07-c", "C07-d", "C07-f", "C06-a"},
 		Decides:    "the receiver's validation and ordering mechanisms: blocks validated before being stored (C07-a), no commit stored while a parent is missing (C07-b), rebuilt block indices compared with the table's recorded sums (C07-c), sender pushes blocks before table before commit (C07-d), blocks stored under the hash of the decoded content (C07-e).",
 		NotDecided: "byte identity of source and destination stores; packfile splitting arithmetic.",
 	}
@@ -24,17 +24,17 @@ func init() {
 		NotDecided: "repeatability of the operation after a crash; effects of a crash inside a multi-branch pull; atomicity of the underlying stores (trusted).",
 	}
 	props["C10"] = &propSpec{
-		Rules:      []string{"C10-a", "C10-b", "C10-c", "C10-d", "C10-e"},
+		Rules:      []string{"C10-a", "C10-b", "C10-c", "C10-d", "C10-e", "C10-f"},
 		Decides:    "every ref-update site in fetch and push is reachable only through a fast-forward, force, new-ref or delete permit (C10-a); existing tags additionally need force (C10-b); ref writes go through the logging API only (C10-c); the reflog's old value is read inside the same SQL transaction (C10-d); merge writes refs only after the merge base was computed (C10-e, weak).",
 		NotDecided: "that IsAncestorOf answers correctly (C11); merge's fast-forward condition (control-dependent on SeekCommonAncestor); pull's new-branch detection; the remote side of push.",
 	}
 	props["C09"] = &propSpec{
-		Rules:      []string{"C09-a", "C09-b", "C09-c", "C10-c"},
+		Rules:      []string{"C09-a", "C09-b", "C09-c", "C09-e", "C09-f", "C10-c"},
 		Decides:    "ordering/completion mechanisms of fetch and push: refs saved only after objects were fetched successfully (C09-a); the upload-pack session ends only when the receiver reports all expected commits (C09-b); a push session is created only after the shallow-commit check (C09-c); ref writes go through pkg/ref's logging API (C10-c).",
 		NotDecided: "completeness of the transferred history, object identity on both sides, idempotence of a repeated fetch/push.",
 	}
 	props["C12"] = &propSpec{
-		Rules:      []string{"C12-a", "C12-b", "C12-c", "C12-d", "C12-e"},
+		Rules:      []string{"C12-a", "C12-b", "C12-c", "C12-d", "C12-e", "C12-f"},
 		Decides:    "structural mechanisms of prune safety: roots are seeded from an unfiltered ref listing (C12-a); no ref/object-store error is dropped while marking (C12-b); every delete lies under a not-marked edge (C12-c); sort.Search hits are bounds- and equality-checked before marks are written (C12-d); commits are deleted last (C12-e).",
 		NotDecided: "that the marked set equals the reachable set for every repository (graph-valued).",
 	}
@@ -44,7 +44,7 @@ func init() {
 		NotDecided: "the outcome of every crash point; log contents; atomicity of a single run (the per-branch loop is not one store transaction).",
 	}
 	props["C15"] = &propSpec{
-		Rules:      []string{"C15-a", "C13-g", "C10-d", "C15-c"},
+		Rules:      []string{"C15-a", "C13-g", "C10-d", "C15-c", "C15-d"},
 		Decides:    "the SQL ref store's text and transaction discipline: no pattern operator (LIKE/GLOB/…) in any query, so prefix listing is literal and case-sensitive (C15-a); multi-statement writes run on one *sql.Tx (C13-g); the reflog's old value is read in the same transaction (C10-d); rename/copy/delete change ref and log rows together (C15-c).",
 		NotDecided: "sequence semantics of the store against a map model; the file store (pkg/ref/fs is imported only by tests and is outside the production call graph).",
 	}
@@ -59,7 +59,7 @@ func init() {
 		NotDecided: "equality of the decoded object sequences under every partition of the stream (behavioural); readers handed to third-party decoders (gzip, json).",
 	}
 	props["C19"] = &propSpec{
-		Rules:      []string{"C19-a", "C19-b", "C19-d", "C01-a", "C01-b"},
+		Rules:      []string{"C19-a", "C19-b", "C19-d", "C19-e", "C01-a", "C01-b"},
 		Decides:    "structural necessary conditions of 'every distinct key once, in key order': position-wise row comparators are two-sided (C19-a); the key is extracted in the column layout its positions were computed for (C19-b); spill errors are not dropped and the row codec does not wrap (C01-a, C01-b); every spill file has a close+remove cleanup registered that Close runs (C19-d).",
 		NotDecided: "sortedness and de-duplication of the output for all row multisets and memory limits (value-dependent).",
 	}
@@ -69,7 +69,7 @@ func init() {
 		NotDecided: "implicit index panics with non-constant indices, loop termination, 'nothing from a rejected packfile is left referenced'.",
 	}
 	props["C05"] = &propSpec{
-		Rules:      []string{"C05-a"},
+		Rules:      []string{"C05-a", "C05-b", "C05-c"},
 		Decides:    "column-layout consistency of the merge result pipeline: rows and key positions that reach the result sorter are in the merged layout, never raw base-table rows or base key positions (C05-a).",
 		NotDecided: "the cell-wise resolution rules, conflict marking, commutativity, keyless tables and renamed columns (value-dependent).",
 	}
@@ -79,7 +79,7 @@ func init() {
 		NotDecided: "closedness, parent-first order, minimality, depth selection, polynomial termination — all statements about DAG values.",
 	}
 	props["C11"] = &propSpec{
-		Rules:      []string{"C11-a", "C11-b", "C11-c"},
+		Rules:      []string{"C11-a", "C11-b", "C11-c", "C11-d"},
 		Decides:    "'whatever the commit timestamps say' for the ancestor test: Commit.Time influences only the ordering of the frontier (C11-a); a negative answer is given only when the frontier is exhausted (C11-b); every parent is offered to the frontier (C11-c).",
 		NotDecided: "correctness of SeekCommonAncestor's lock-step elimination; visit-exactly-once (graph-valued).",
 	}
